@@ -162,6 +162,13 @@ func (b *backend) List(ctx context.Context, r *proto.RangeRequest) (resp *proto.
 		klog.ErrorS(err, "backend range err", "key", string(r.GetKey()), "end", string(r.GetEnd()), "revision", r.GetRevision())
 		return nil, err
 	}
+	// a read at a revision that is newer than the committed one (e.g. the revision a write has just been
+	// acknowledged with) may return newer data: as in Get, the header never stays behind the data
+	for _, kv := range kvs {
+		if kv.Revision > curRevision {
+			curRevision = kv.Revision
+		}
+	}
 	resp = &proto.RangeResponse{
 		Header: responseHeader(curRevision),
 	}
